@@ -230,7 +230,10 @@ def stepWire (ws : List String) (impl : String) : String :=
 def step (line : String) : String :=
   match line.splitOn " => " with
   | [req, impl] =>
-    match words req with
+    let ws := words req
+    -- w<balancer> ops carry a 4th field: the subscribed topics the cluster does not have
+    let missS := if ws.length == 4 then ws.getD 3 "-" else "-"
+    match (if ws.length == 4 then ws.take 3 else ws) with
     | "abytes" :: _ => stepWire (words req) impl
     | "aread" :: _ => stepWire (words req) impl
     | "mbytes" :: _ => stepWire (words req) impl
@@ -257,29 +260,32 @@ def step (line : String) : String :=
         let idsH := ids.map fun i => (i, ((idTab.find? (·.1 == i)).map (·.2)).getD "?")
         let ts := sortDedup (ms.flatMap (·.topics) ++ ps.map (·.topic) ++ es.map (·.2.1))
         let a := asgOf es
+        -- what the leader's balancer is given: the cluster's partitions, or (w ops) what the fixed readTopicMetadata
+        -- makes of a Metadata answer in which the topics `missS` carry UnknownTopicOrPartition
+        let got := if op.startsWith "w" then KV.GroupGlue.leaderPartitions ps ((parseNats missS).getD []) ms else ps
         let wf := decide (WellFormed ms)
         let ok := impl != "panic"
         -- ops g<balancer>: the same group run through the real leader glue; `impl` is what the members RECEIVED;
         -- the model is the balancer model pushed through Model/GroupGlue (topics32 iterated in reverse order)
         -- ops v<balancer>: as g<balancer>, `impl` is Generation.Assignments of every member (after makeAssignments);
         -- the model applies `GroupGlue.makeAssignments` with the member's own topic list to its table entry
-        let viaView := op.startsWith "v" || op.startsWith "l"   -- l<balancer>: the same view, observed on real concurrent ConsumerGroups
+        let viaView := op.startsWith "v" || op.startsWith "l" || op.startsWith "w"   -- l<balancer>: the same view, observed on real concurrent ConsumerGroups
         let viaGlue := op.startsWith "g" || viaView
         let bop := if viaGlue then (op.drop 1).toString else op
         -- `thru m` = `KV.GroupGlue.delivered List.reverse m ids ts` evaluated through a table (see `glueTable`)
         -- (the table is bound as data at each use so that it is computed once, not once per lookup)
         match bop with
         | "range" =>
-          let tb0 := if viaGlue then glueTable (rangeAssign ms ps) ids ts else []
+          let tb0 := if viaGlue then glueTable (rangeAssign ms got) ids ts else []
           let tb := if viaView then viewTable ms tb0 else tb0
-          answer (render (if viaGlue then asgOfTable tb else rangeAssign ms ps) idsH ts) (ok && (!wf || rangeHoldsOn ms ps a ts ids))
+          answer (render (if viaGlue then asgOfTable tb else rangeAssign ms got) idsH ts) (ok && (!wf || rangeHoldsOn ms ps a ts ids))
         | "rr" =>
-          let tb0 := if viaGlue then glueTable (rrAssign ms ps) ids ts else []
+          let tb0 := if viaGlue then glueTable (rrAssign ms got) ids ts else []
           let tb := if viaView then viewTable ms tb0 else tb0
-          answer (render (if viaGlue then asgOfTable tb else rrAssign ms ps) idsH ts) (ok && (!wf || rrHoldsOn ms ps a ts ids))
+          answer (render (if viaGlue then asgOfTable tb else rrAssign ms got) idsH ts) (ok && (!wf || rrHoldsOn ms ps a ts ids))
         | "rack" =>
           let zs := sortDedup (ms.map (·.zone) ++ ps.map (·.zone))
-          let per := ts.map fun t => (t, rackTopic ms ps a ids t)
+          let per := ts.map fun t => (t, rackTopic ms got a ids t)
           let m : Asg := fun t id => match per.find? (·.1 == t) with
                                      | some (_, some es) => collect id es
                                      | _ => []
